@@ -363,13 +363,12 @@ theorem contains_toPReg (r : PixR α) (g : PReg α) (h : r.toPReg = some g) (p :
 
 /-! ### membership -/
 
-/-- **`SkyRegion.contains` is literally the pixel image's answer on `PixCoord.from_sky(position)`** — for every
+/-- **`SkyRegion.contains` is the pixel image's answer on the WCS image of the position** — for every
 class; for compounds the component-wise definition of `CompoundSkyRegion.contains` agrees with
-converting the whole compound (induction over the expression).  No hypothesis on the WCS.
-(`fromSky` is a different route from the `toPix` = `wcs.world_to_pixel` used for the region itself:
-see `sky_contains_wcs_image_*` below.) -/
+converting the whole compound (induction over the expression).  No hypothesis on the WCS: region and
+position go through the same `wcs.world_to_pixel` (F205 repaired in b44d15d). -/
 theorem sky_contains_eq (w : Wcs Sky α) (r : SkyR Sky α) (q : Sky) :
-    r.contains w q = (r.toPixel w).contains (w.fromSky q) := by
+    r.contains w q = (r.toPixel w).contains (w.toPix q) := by
   induction r with
   | compound op r1 r2 m v ih1 ih2 =>
     simp only [SkyR.contains, ih1, ih2, SkyR.toPixel, PixR.mkCompound, PixR.contains]
@@ -388,22 +387,14 @@ theorem sky_contains_eq (w : Wcs Sky α) (r : SkyR Sky α) (q : Sky) :
 theorem sky_compound_contains (w : Wcs Sky α) (op : ROp) (a b : SkyR Sky α) (m : Meta) (v : Visual α)
     (q : Sky) :
     (SkyR.compound op a b m v).contains w q
-      = withInclude m.inc (op.apply ((a.toPixel w).contains (w.fromSky q)) ((b.toPixel w).contains (w.fromSky q))) := by
+      = withInclude m.inc (op.apply ((a.toPixel w).contains (w.toPix q)) ((b.toPixel w).contains (w.toPix q))) := by
   simp only [SkyR.contains, sky_contains_eq]
 
 /-- membership survives pixel → sky: the sky image of a pixel region contains the sky image of a
 position exactly when the region contained the position. -/
 theorem pix_contains_via_sky (w : Wcs Sky α) (hp : ∀ p : Pt α, w.toPix (w.toSky p) = p)
-    (hf : ∀ q : Sky, w.fromSky q = w.toPix q)
     (hr : Regular w) (r : PixR α) (p : Pt α) : (r.toSky w).contains w (w.toSky p) = r.contains p := by
-  rw [sky_contains_eq, roundtrip_pix_sky_pix_exact w hp hr r, hf, hp]
-
-/-- **the membership clause with the WCS image of the position** (partial): when `PixCoord.from_sky` and
-`wcs.world_to_pixel` agree on the position — a longitude-first WCS and astropy transforming the position's
-frame — a sky region contains a position exactly when its pixel image contains the WCS image of it. -/
-theorem sky_contains_wcs_image_partial (w : Wcs Sky α) (r : SkyR Sky α) (q : Sky)
-    (hf : w.fromSky q = w.toPix q) : r.contains w q = (r.toPixel w).contains (w.toPix q) := by
-  rw [sky_contains_eq, hf]
+  rw [sky_contains_eq, roundtrip_pix_sky_pix_exact w hp hr r, hp]
 
 end field
 
@@ -476,7 +467,7 @@ def sky_roundtrip_any_frame_full : Prop :=
 both tags to the same pixel, answers with tag `false`, and its scale along the other frame's north is 2,
 along its own north 1 (a place where the projection is not conformal). -/
 def twoFrameWcs : Wcs (Pt ℚ × Bool) ℚ :=
-  ⟨fun q => q.1, fun p => (p, false), fun q => ⟨if q.2 then 2 else 1, ⟨0, 1⟩, 90⟩, fun q => q.1⟩
+  ⟨fun q => q.1, fun p => (p, false), fun q => ⟨if q.2 then 2 else 1, ⟨0, 1⟩, 90⟩⟩
 
 /-- refuted: a circle of radius 6 given in the other frame comes back with radius 3. -/
 theorem sky_roundtrip_any_frame_full_refuted : ¬ sky_roundtrip_any_frame_full := by
@@ -496,27 +487,18 @@ theorem sky_roundtrip_any_frame_partial {Sky α : Type} [Field α] [LinearOrder 
     (w : Wcs Sky α) (hs : ∀ q : Sky, w.toSky (w.toPix q) = q) (hr : Regular w) (r : SkyR Sky α) :
     (r.toPixel w).toSky w = r := roundtrip_sky_pix_sky_exact w hs hr r
 
-/-! ### the membership clause against the WCS image of the position (finding F205)
+/-! ### the membership clause against the WCS image of the position (finding F205, repaired in b44d15d)
 
-The region is converted with `wcs.world_to_pixel`, the positions with `PixCoord.from_sky` (astropy's
-`skycoord_to_pixel`, which re-orders the pixel axes of a latitude-first WCS).  Full strength: a sky region
-contains a position exactly when its pixel image contains the WCS image (`world_to_pixel`) of it. -/
+Before the repair the positions went through `PixCoord.from_sky` (astropy's `skycoord_to_pixel`, which exchanges the
+pixel axes of a latitude-first WCS) while the region went through `wcs.world_to_pixel`; a sky circle did not contain its own
+centre on such a WCS.  Now both take the same route and the clause holds at full strength, for every WCS parameter. -/
 
 def sky_contains_wcs_image_full : Prop :=
   ∀ (Sky α : Type) [Field α] [LinearOrder α] [IsStrictOrderedRing α] (w : Wcs Sky α) (r : SkyR Sky α) (q : Sky),
     r.contains w q = (r.toPixel w).contains (w.toPix q)
 
-/-- a latitude-first WCS in miniature: `world_to_pixel` is the identity, `from_sky` swaps the two pixel axes. -/
-def latFirstWcs : Wcs (Pt ℚ) ℚ := ⟨id, id, fun _ => ⟨1, ⟨0, 1⟩, 90⟩, fun q => ⟨q.y, q.x⟩⟩
-
-/-- refuted: the sky circle of radius 1 about (5, 0) does not contain its own centre. -/
-theorem sky_contains_wcs_image_full_refuted : ¬ sky_contains_wcs_image_full := by
-  intro h
-  have := h (Pt ℚ) ℚ latFirstWcs (.circle ⟨5, 0⟩ 1 Meta.empty Visual.empty) ⟨5, 0⟩
-  revert this
-  simp [SkyR.contains, SkyR.toPixel, PixR.contains, PReg.contains, Wcs.scaleAngle, latFirstWcs, metaOr_some,
-    visualOr_some, Meta.empty, withInclude, Include.truthy, Circle.inRaw, sep2]
-  norm_num
+theorem sky_contains_wcs_image_full_holds : sky_contains_wcs_image_full :=
+  fun _ _ _ _ _ w r q => sky_contains_eq w r q
 
 /-! ### the full-strength meta / visual clauses (F2 fixed: they hold) -/
 
@@ -537,7 +519,7 @@ def sky_meta_preserved_full : Prop :=
 /-- full strength: membership survives pixel → sky for an invertible, regular WCS. -/
 def pix_contains_via_sky_full : Prop :=
   ∀ (Sky α : Type) [Field α] [LinearOrder α] [IsStrictOrderedRing α] (w : Wcs Sky α),
-    (∀ p : Pt α, w.toPix (w.toSky p) = p) → (∀ q : Sky, w.fromSky q = w.toPix q) → Regular w →
+    (∀ p : Pt α, w.toPix (w.toSky p) = p) → Regular w →
       ∀ (r : PixR α) (p : Pt α), (r.toSky w).contains w (w.toSky p) = r.contains p
 
 theorem meta_preserved_full_holds : meta_preserved_full := fun _ _ _ _ _ w r => meta_preserved w r
@@ -548,7 +530,7 @@ theorem sky_meta_preserved_full_holds : sky_meta_preserved_full := fun _ _ _ _ _
   sky_meta_preserved w r
 
 theorem pix_contains_via_sky_full_holds : pix_contains_via_sky_full :=
-  fun _ _ _ _ _ w hp hf hr r p => pix_contains_via_sky w hp hf hr r p
+  fun _ _ _ _ _ w hp hr r p => pix_contains_via_sky w hp hr r p
 
 /-- the former witness of F2, `CompoundPixelRegion(circle, circle, and_, meta={'include': False,
 'label': 'zz'}, visual={'color': 'blue'})`, now round-trips. -/
@@ -559,7 +541,7 @@ def witness : PixR ℚ :=
     (some witnessMeta) (some witnessVisual)
 
 /-- the identity WCS on `ℚ²`: scale 1 arcsec / pixel, north = +y. -/
-def idWcs : Wcs (Pt ℚ) ℚ := ⟨id, id, fun _ => ⟨1, ⟨0, 1⟩, 90⟩, id⟩
+def idWcs : Wcs (Pt ℚ) ℚ := ⟨id, id, fun _ => ⟨1, ⟨0, 1⟩, 90⟩⟩
 
 theorem idWcs_invertible : Invertible idWcs := ⟨fun _ => rfl, fun _ => rfl⟩
 
@@ -575,8 +557,7 @@ example : ((witness.toSky idWcs).toPixel idWcs).metas = [witnessMeta, Meta.empty
 def rotWcs : Wcs (Pt ℚ) ℚ :=
   ⟨fun q => ⟨(3/5 * q.x - 4/5 * q.y) / 2 + 10, (4/5 * q.x + 3/5 * q.y) / 2 - 3⟩,
    fun p => ⟨3/5 * (2 * (p.x - 10)) + 4/5 * (2 * (p.y + 3)), -(4/5) * (2 * (p.x - 10)) + 3/5 * (2 * (p.y + 3))⟩,
-   fun _ => ⟨2, ⟨-(4/5), 3/5⟩, 0⟩,
-   fun q => ⟨(3/5 * q.x - 4/5 * q.y) / 2 + 10, (4/5 * q.x + 3/5 * q.y) / 2 - 3⟩⟩
+   fun _ => ⟨2, ⟨-(4/5), 3/5⟩, 0⟩⟩
 
 example : Invertible rotWcs :=
   ⟨fun p => by cases p; simp only [rotWcs, Pt.mk.injEq]; constructor <;> ring,
